@@ -373,6 +373,24 @@ func c04NilItems(r *Run) {
 		{map[string]any{"x": "outer", "xs": []any{nil, nil}}, `<li v-for="(x, y) in xs">{{ x }}[{{ y }}]</li>`, `<li>0[]</li><li>1[]</li>`},
 		{map[string]any{"x": "outer", "ps": []*c04Names{nil, {Name: "p1"}}}, `<li v-for="x in ps">[{{ x.Name }}]</li><p>{{ x }}</p>`, `<li>[]</li><li>[p1]</li><p>outer</p>`},
 	}
+	// names bound inside one loop instance - the item, the index and any number of names assigned by a <template a=..>
+	// in the body - are gone in every later loop: an instance of 1 to 14 names, then an unrelated loop that reads them
+	for k := 1; k <= 14; k++ {
+		var attrs, reads, empties strings.Builder
+		for j := 1; j <= k; j++ {
+			fmt.Fprintf(&attrs, ` a%d="v%d"`, j, j)
+			fmt.Fprintf(&reads, "|{{ a%d }}", j)
+			empties.WriteString("|")
+		}
+		people := []any{"ann", "bob"}
+		cases = append(cases, struct {
+			data any
+			tpl  string
+			want string
+		}{map[string]any{"people": people, "queue": []any{"x", "y"}},
+			`<div v-for="(i, p) in people"><template` + attrs.String() + `></template>{{ a` + fmt.Sprint(k) + ` }}</div><li v-for="q in queue">{{ q }}[{{ i }}|{{ p }}` + reads.String() + `]</li><u v-for="(n, z) in queue">{{ p }}{{ a1 }}</u>`,
+			strings.Repeat(`<div>v`+fmt.Sprint(k)+`</div>`, 2) + `<li>x[|` + empties.String() + `]</li><li>y[|` + empties.String() + `]</li><u></u><u></u>`})
+	}
 	for i, c := range cases {
 		var buf bytes.Buffer
 		var err error
@@ -388,7 +406,11 @@ func c04NilItems(r *Run) {
 		r.Eval(fmt.Sprintf("nil-item:%d", i), true, nil)
 		r.Count("stream:nil-items(oracle only)")
 		if err != nil || got != c.want {
-			r.Fail("a loop variable bound to a nil member does not shadow the outer name in its instance", map[string]string{"oracle": "nil-item-shadowing", "case": fmt.Sprint(i)},
+			what, orc := "a loop variable bound to a nil member does not shadow the outer name in its instance", "nil-item-shadowing"
+			if strings.Contains(c.tpl, "<template a1=") {
+				what, orc = "names bound in one loop instance are visible in a later, unrelated loop", "instance-names-gone"
+			}
+			r.Fail(what, map[string]string{"oracle": orc, "case": fmt.Sprint(i)},
 				map[string]any{"template": c.tpl, "data": fmt.Sprintf("%+v", c.data), "output": buf.String(), "expected": c.want, "err": fmt.Sprint(err)})
 		}
 	}
